@@ -24,7 +24,7 @@ def main():
     if o.strip():
         print('/repo is not clean')
         return 2
-    names = sorted(os.listdir(os.path.join(VERIF, 'seeded')))
+    names = sorted(n for n in os.listdir(os.path.join(VERIF, 'seeded')) if os.path.exists(os.path.join(VERIF, 'seeded', n, 'meta.json')))
     if pre:
         names = [n for n in names if any(n.startswith(p) for p in pre)]
     rows = []
@@ -48,8 +48,16 @@ def main():
         kind = 'MISSED' if rc == 0 else ('input' if any('no-failing-input-found' not in l for l in v) else 'obligation-only')
         rows.append((n, pid, kind, o.splitlines()[-1][:110] if o.splitlines() else ''))
         print('%-42s %s %-16s %s' % rows[-1], flush=True)
-    json.dump([{'seeded': r[0], 'property': r[1], 'outcome': r[2]} for r in rows],
-              open(os.path.join(VERIF, 'seeded', 'RECHECK.json'), 'w'), indent=1)
+    out = os.path.join(VERIF, 'seeded', 'RECHECK.json')
+    prev = {}
+    if os.path.exists(out):
+        try:
+            prev = {e['seeded']: e for e in json.load(open(out))}
+        except Exception:
+            prev = {}
+    for r in rows:
+        prev[r[0]] = {'seeded': r[0], 'property': r[1], 'outcome': r[2]}
+    json.dump([prev[k] for k in sorted(prev)], open(out, 'w'), indent=1)
     missed = [r for r in rows if r[2] != 'input']
     print('%d seeded changes, %d caught with a failing input, %d otherwise' % (len(rows), len(rows) - len(missed), len(missed)))
     return 0
